@@ -62,7 +62,7 @@ Theorem C19_git_agree : forall ps path d, no_neg ps = true -> gi_ignored ps path
 Proof. exact gi_git_agree. Qed.
 Print Assumptions C19_git_agree.
 
-(** The code before the three repairs falsified the property (fixed: 072ec13, 4625a80, 286403b). *)
+(** The code before the three repairs falsified the property (see known_findings.txt for the four fix: commits). *)
 Theorem C19_legacy_refuted_dir_pattern :
   exists t exts lines args outs p,
     linted_legacy t exts (parse_lines lines) args = Some outs /\ In p (map snd outs) /\
@@ -80,3 +80,10 @@ Theorem C19_legacy_refuted_dir_candidate :
                       linted_legacy t exts [] args = None.
 Proof. exact legacy_refuted_dir_candidate. Qed.
 Print Assumptions C19_legacy_refuted_dir_candidate.
+
+Theorem C19_legacy_refuted_ext_case :
+  exists t exts args, has_ext exts n_aSQL = true /\ ends_with (hd [] exts) n_aSQL = true /\
+                      linted_legacy t exts [] args = Some [] /\
+                      linted t exts [] args = Some [(Rel, [n_aSQL])].
+Proof. exact legacy_refuted_ext_case. Qed.
+Print Assumptions C19_legacy_refuted_ext_case.
